@@ -34,6 +34,8 @@ func init() {
 	// answers one observation per op ("-" for writes that succeeded, "!"+class for failed ones)
 	implOps["store_history"] = func(a []string) []string {
 		attributes.Efivars = string(unhx(a[0]))
+		// the process runs in a zone west of UTC (timestamps are UTC whatever the zone)
+		time.Local = time.FixedZone("verif-0800", -8*3600)
 		tfs := testfs.NewTestFS()
 		if a[1] != "" {
 			m := fstest.MapFS{}
@@ -144,6 +146,7 @@ func runC12(c *Ctx) {
 	n := c.N(250, 15000)
 	maxOps := c.Bound(40, 150)
 	dir := "/sys/firmware/efi/efivars"
+	dirs := []string{dir, dir, "/mnt/target/sys/firmware/efi/efivars"}
 	type vdef struct {
 		name   string
 		g      util.EFIGUID
@@ -165,9 +168,17 @@ func runC12(c *Ctx) {
 	cert := simpleCert(key, "store signer", 7)
 	fatCert := storeFatCert(key, cert)
 	for i := 0; i < n; i++ {
+		dir = dirs[i%len(dirs)] // the efivars directory is a variable: stores are also made after it was changed
 		u := newSigUniverse(rng)
 		genDb := func() signature.SignatureDatabase {
 			db := signature.SignatureDatabase{}
+			if rng.Intn(25) == 0 {
+				// a long revocation list: more than 4 KiB of data
+				for k := 0; k < 100+rng.Intn(120); k++ {
+					db.Append(gSHA256, util.EFIGUID{Data1: uint32(k)}, randBytes(rng, 32))
+				}
+				return db
+			}
 			for k := rng.Intn(5); k > 0; k-- {
 				t, o, d, _ := u.entry(rng, true)
 				db.Append(t, o, d)
